@@ -52,11 +52,13 @@ class Flow(Distribution):
         embedded_context = self._embedding_net(context)
         if self._context_used_in_base:
             noise = self._distribution.sample(num_samples, context=embedded_context)
+        elif embedded_context is None:
+            noise = self._distribution.sample(num_samples)
         else:
             repeat_noise = self._distribution.sample(num_samples*embedded_context.shape[0])
             noise = torch.reshape(
                     repeat_noise,
-                    (embedded_context.shape[0], -1, repeat_noise.shape[1])
+                    (embedded_context.shape[0], num_samples, *repeat_noise.shape[1:])
                     )
 
         if embedded_context is not None:
@@ -84,10 +86,19 @@ class Flow(Distribution):
             noise, log_prob = self._distribution.sample_and_log_prob(
                 num_samples, context=embedded_context
             )
-        else:
+        elif embedded_context is None:
             noise, log_prob = self._distribution.sample_and_log_prob(
                 num_samples
             )
+        else:
+            # The base distribution does not take a context: draw one sample per
+            # (context row, sample) pair and arrange them as [context_size, num_samples, ...].
+            context_size = embedded_context.shape[0]
+            noise, log_prob = self._distribution.sample_and_log_prob(
+                num_samples * context_size
+            )
+            noise = torch.reshape(noise, (context_size, num_samples, *noise.shape[1:]))
+            log_prob = torch.reshape(log_prob, (context_size, num_samples))
 
         if embedded_context is not None:
             # Merge the context dimension with sample dimension in order to apply the transform.
